@@ -24,17 +24,17 @@ fn strand(x: &Sx) -> Strand {
 fn score(x: &Sx) -> Score {
     Score::try_from(x.u64() as u32).expect("glue: score above 1000 in a case")
 }
-fn f(x: &Sx) -> f64 {
+pub fn f(x: &Sx) -> f64 {
     f64::from_bits(x.u64())
 }
-fn bedn<const N: u8>(l: &[Sx]) -> BED<N> {
+pub fn bedn<const N: u8>(l: &[Sx]) -> BED<N> {
     BED::new(l[0].string(), l[1].u64(), l[2].u64(), opt(&l[3], |x| x.string()), opt(&l[4], score), opt(&l[5], strand), Default::default())
 }
-fn np(l: &[Sx]) -> NarrowPeak {
+pub fn np(l: &[Sx]) -> NarrowPeak {
     NarrowPeak { chrom: l[0].string(), start: l[1].u64(), end: l[2].u64(), name: opt(&l[3], |x| x.string()), score: opt(&l[4], score), strand: opt(&l[5], strand),
         signal_value: f(&l[6]), p_value: opt(&l[7], f), q_value: opt(&l[8], f), peak: l[9].u64() }
 }
-fn bp(l: &[Sx]) -> BroadPeak {
+pub fn bp(l: &[Sx]) -> BroadPeak {
     BroadPeak { chrom: l[0].string(), start: l[1].u64(), end: l[2].u64(), name: opt(&l[3], |x| x.string()), score: opt(&l[4], score), strand: opt(&l[5], strand),
         signal_value: f(&l[6]), p_value: opt(&l[7], f), q_value: opt(&l[8], f) }
 }
